@@ -237,6 +237,38 @@ def replay_case(c):
                             bad.append((site + "/" + {"shape": "matrix", "M": "matrix", "orig": "to_original", "mapped": "to_mapped"}[asp],
                                         {"got": got[asp], "expected": exp[asp], "positions": pos}))
                             break
+    # magnitudes: 2^60 self-counts added to one state of EVERY strongly connected component (self-counts do not touch
+    # connectivity, every component total grows by the same amount): the heaviest component is still the heaviest, by
+    # a margin that a total accumulated in floating point can no longer see (the spacing of doubles at 2^60 is 256)
+    if int(A.sum()) > 0 and len(alts) == 1 and c.get("comps") and len(c["comps"]) >= 2:
+        H = 2 ** 60
+        Ah = A.copy()
+        marked = [min(comp) for comp in c["comps"]]
+        for i in marked:
+            Ah[i, i] += H
+        keep = alts[0]["kept"]
+        hk = min(keep)
+        for tag in [t for t in tags if t in ("ndarray", "csr_matrix", "coo_matrix")]:
+            for variant, ren in (("ren", True), ("inp", False)):
+                e = alts[0][variant]
+                M = np.array(e["M"], dtype=np.int64).reshape(e["m"], e["m"])
+                pos = {orig: mapped for mapped, orig in e["orig"]}[hk] if ren else hk
+                M[pos, pos] += H
+                site = "trim_disconnected/%s/%s/huge-self-counts" % (tag, "renumber" if ren else "inplace")
+                xh = Ah.copy() if tag == "ndarray" else classes[tag](Ah)
+                try:
+                    mapping, out = trim_disconnected(xh, threshold=thr, renumber_states=ren)
+                    got = _observe(mapping, out)
+                except Exception as ex:
+                    bad.append((site + "/raised-" + type(ex).__name__, "%s: %s" % (type(ex).__name__, ex)))
+                    continue
+                exp = {"shape": [e["m"], e["m"]], "M": [int(v) for v in M.ravel()], "orig": e["orig"], "mapped": e["mapped"]}
+                for asp in ("shape", "M", "orig", "mapped"):
+                    if got[asp] != exp[asp]:
+                        bad.append((site + "/" + {"shape": "matrix", "M": "matrix", "orig": "to_original", "mapped": "to_mapped"}[asp],
+                                    {"got": got[asp], "expected": exp[asp], "self_counts_of_2^60_added_to_states": marked,
+                                     "components": c["comps"]}))
+                        break
     ks = set(chosen.values())
     if len(ks) > 1:
         for tag in tags:
